@@ -248,6 +248,9 @@ def main(argv=None):
         log('HARNESS-ERROR:', h)
 
     n_cells = len([1 for (m, n, s), r in results if not s.get('twin')])
+    if n_cells and not violations and len(inconclusive) * 2 > n_cells:
+        harness_errors.append('%d of %d cells were inconclusive: the check decided too little to count as a pass' % (len(inconclusive), n_cells))
+        log('HARNESS-ERROR:', harness_errors[-1])
     worker_errors = [n for n, why in inconclusive if why.startswith('worker error')]
     if n_cells and len(worker_errors) == n_cells:
         harness_errors.append('every cell failed with a worker error: ' + inconclusive[0][1])
